@@ -353,6 +353,31 @@ def motif_deps_swap(rnd, sid):
     h.add(Step('build', st.line, g=st.g, sources=st.sources, targets=st.targets, opts=st.opts, repeat=True))
     return h
 
+def motif_restat_phony_fan(rnd, sid):
+    """a restat statement that leaves its output alone, a fan / chain of phony statements behind that output (at least as many
+    as there are commands in the plan), and independent commands that still have to run in the same invocation: the
+    termination counters must not be eaten by the pruned phony statements"""
+    g = engine.Graph()
+    g.sources['gs'] = 'gen.0'; g.sources['cs'] = 'c.0'
+    e0 = engine.Edge(0); e0.outs = ['gen.h']; e0.exp = ['gs']; e0.restat = True
+    g.edges = [e0]
+    k = rnd.randrange(3, 8); prev = 'gen.h'; names = []
+    for i in range(k):
+        pe = engine.Edge(1 + i); pe.phony = True; pe.outs = ['ph%d' % i]
+        pe.exp = [prev if rnd.random() < 0.5 else 'gen.h']; prev = pe.out0; names.append(pe.out0); g.edges.append(pe)
+    nc = rnd.randrange(1, 4); outs = []
+    for i in range(nc):
+        ce = engine.Edge(20 + i); ce.outs = ['c%d' % i]; ce.exp = ['cs'] + ([outs[-1]] if outs and rnd.random() < 0.5 else []); outs.append(ce.out0); g.edges.append(ce)
+    top = engine.Edge(40); top.phony = True; top.outs = ['all']; top.exp = names + outs; g.edges.append(top)
+    g.defaults = ['all']
+    h = Hist(sid, g)
+    h.build(rnd, None, j=rnd.choice([1, 2, 4]), k=1, sched=rand_sched(rnd, 12))
+    h.add(Step('touch', 'step touch %s' % hx('gs'), path='gs'))        # the restat command re-runs and writes the same content
+    h.edit('cs', 'c.%d' % rnd.randrange(1, 1000))
+    st = h.build(rnd, None, j=rnd.choice([1, 2, 4]), k=1, sched=rand_sched(rnd, 12))
+    h.add(Step('build', st.line, g=st.g, sources=st.sources, targets=st.targets, opts=st.opts, repeat=True))
+    return h
+
 # ------------------------------------------------------------------ C17: cycles
 def find_cycle(g, targets):
     """ground truth: is there a dependency cycle among the statements needed for `targets`
